@@ -33,6 +33,9 @@ type Strategy struct {
 	EarlyAccuse  bool // send the (false) accusation already in the dealing phase
 	EarlyApology bool // send an unsolicited apology with a made-up value in the dealing phase
 	Noise        bool // messages for a wrong eon, naming outsiders, naming itself
+	// UnsolicitedApology: an apology nobody asked for, sent in the apologizing phase towards the next
+	// keyper, revealing "zero" (the value 0), "one" or "order-1"; "" for none
+	UnsolicitedApology string
 	// SilentEons: DKG runs in which this keyper sends no DKG message at all
 	SilentEons map[uint64]bool
 }
@@ -47,6 +50,9 @@ func (s Strategy) String() string {
 	}
 	if s.Noise {
 		x += " noise"
+	}
+	if s.UnsolicitedApology != "" {
+		x += " unsolicited-apology=" + s.UnsolicitedApology
 	}
 	return fmt.Sprintf("commit=%s eval=%v accuse=%d apology=%s late=%t%s", s.Commitment, s.Eval, s.Accuse, s.Apology, s.Late, x)
 }
@@ -234,6 +240,25 @@ func (b *Byz) Step(_ context.Context) {
 				evals = append(evals, e)
 			}
 			b.send(shmsg.NewApology(b.eon, accusers, evals), "apology")
+		}
+		if u := b.S.UnsolicitedApology; u != "" {
+			v := (b.Idx + 1) % len(b.keypers)
+			asked := false
+			for _, a := range aps {
+				if int(a.Accuser) == v {
+					asked = true
+				}
+			}
+			if !asked {
+				val := big.NewInt(0)
+				switch u {
+				case "one":
+					val = big.NewInt(1)
+				case "order-1":
+					val = new(big.Int).Sub(bn256Order, big.NewInt(1))
+				}
+				b.send(shmsg.NewApology(b.eon, []common.Address{b.keypers[v]}, []*big.Int{val}), "apology-unsolicited-"+u)
+			}
 		}
 	}
 	if phase >= puredkg.Finalized && b.pure.Phase == puredkg.Apologizing {
